@@ -25,15 +25,24 @@ Lemma flags_fold_length idxs : forall l,
   length (fold_left (fun fl idx => set_nthb (idx / 2) (fun x => N.lor x (if Nat.even idx then 8 else 128)) fl) idxs l) = length l.
 Proof. induction idxs as [|i idxs IH]; intros l; cbn [fold_left]; [reflexivity|]. now rewrite IH, set_nthb_length. Qed.
 
-Theorem C14_header_prefix : forall a r ts b, len (a :: r) <= 255 -> enc_terms_c (a :: r) ts = EOk b ->
+Theorem C14_header_prefix : forall a r ts b, len (a :: r) <= 255 -> existsb (fun x => 65535 <? len x) (a :: r) = false ->
+  enc_terms_c (a :: r) ts = EOk b ->
   exists flags rest, encode_multi (a :: r) ts = HOk (tag_version :: tag_dist_header :: len (a :: r) :: flags ++ rest)
                      /\ length flags = (length (a :: r) / 2 + 1)%nat.
 Proof.
-  intros a r ts b Hl Hb. unfold encode_multi.
-  replace (255 <? len (a :: r)) with false by (symmetry; apply N.ltb_ge; exact Hl). rewrite Hb.
+  intros a r ts b Hl Hlong Hb. unfold encode_multi.
+  replace (255 <? len (a :: r)) with false by (symmetry; apply N.ltb_ge; exact Hl). rewrite Hlong, Hb.
   eexists. eexists. split; [reflexivity|].
   unfold header_flags. rewrite flags_fold_length.
   destruct (existsb (fun a0 : list N => 255 <? len a0) (a :: r)); [rewrite set_nthb_length|]; apply repeat_length.
+Qed.
+
+(* an atom that does not fit the entry's length field is an error, not a truncated length (fix commit 3fde240) *)
+Theorem C14_oversized_atom_is_an_error : forall order ts, order <> [] -> len order <= 255 ->
+  existsb (fun x => 65535 <? len x) order = true -> encode_multi order ts = HErr EAtomTooLarge.
+Proof.
+  intros order ts Hne Hl Hlong. unfold encode_multi. destruct order as [|a r]; [contradiction|].
+  replace (255 <? len (a :: r)) with false by (symmetry; apply N.ltb_ge; exact Hl). now rewrite Hlong.
 Qed.
 
 (* a cached atom is written as ATOM_CACHE_REF with its header position *)
